@@ -2128,8 +2128,96 @@ def rule_gating(repo):
     return r
 
 
+
+# stage registers that are deliberately not enabled by their stage's enable: instance / signal -> reason
+STAGE_REG_EXCEPTIONS = {}      # none on today's tree: every datapath and control pipeline register is a stage-enabled register
+
+
+def rule_stage_regs(repo):
+    import re
+    r = RuleResult('R-C20-stage-regs',
+                   "necessary condition only (pipeline correctness is NOT decided): every pipeline register of the datapath is an "
+                   "enable register whose `en` is driven by the control unit's enable of ITS stage, and every pipeline field of the "
+                   "control unit is written only under that same stage enable, so that all state of a stalled stage is held together")
+    st, info = ctrl_info(repo)
+    d = st.d
+    nfz = BoolNF(repo, info)
+    defs, ff = ctrl_defs(info)
+    stage_re = re.compile(r'_([A-Z])(?:_|$)')
+
+    def stage_of(name):
+        m = stage_re.findall(name)
+        return m[-1] if m else None
+    # the stage enables: the guard under which the control unit latches the valid bit of each stage
+    enable = {}
+    for name, entries in ff.items():
+        if name.startswith('val_'):
+            gs = set()
+            for guards, v in entries:
+                g = [(nfz.nf(t), pol) for t, pol in guards]
+                if any(t == ('sig', 'reset') and pol for t, pol in g):
+                    continue
+                pos = [t for t, pol in g if pol and t[0] == 'sig']
+                gs.add(pos[-1][1] if pos else None)
+            if len(gs) != 1 or None in gs:
+                raise AnalysisError(f"cannot identify the stage enable guarding {name}")
+            enable[name[4:]] = gs.pop()
+    if len(enable) < 5 or len(set(enable.values())) != len(enable):
+        raise AnalysisError(f"stage enables of ProcCtrl are not one per stage: {enable}")
+    # control unit: every pipeline field of stage S is written only under the enable of S
+    for name, entries in sorted(ff.items()):
+        S = stage_of(name)
+        cons = f"control field {name} latched under the stage enable"
+        if S is None or S not in enable:
+            r.bad(info.mod, 'ProcCtrl.construct', cons, f"flip-flop signal {name} cannot be attributed to a pipeline stage")
+            continue
+        wrong = []
+        for guards, v in entries:
+            g = [(nfz.nf(t), pol) for t, pol in guards]
+            if any(t == ('sig', 'reset') and pol for t, pol in g):
+                continue
+            if (('sig', enable[S]), True) not in g:
+                wrong.append(v)
+        if wrong and name not in STAGE_REG_EXCEPTIONS:
+            r.bad(info.mod, 'ProcCtrl.construct', cons,
+                  f"{name} <<= {norm(wrong[0])[:50]} is not guarded by {enable[S]}: while stage {S} stalls the field is overwritten "
+                  f"with the next instruction's value although the stage still holds the old instruction", getattr(wrong[0], 'lineno', 0))
+        else:
+            r.ok(info.mod, 'ProcCtrl.construct', cons + f" ({enable[S]})")
+    # datapath: every native register is RegEn/RegEnRst and enabled by the enable of the stage it belongs to
+    regs = [i for i in d.insts.values() if i.kind == 'native' and i.cls.name.startswith('Reg') and i.cls.name != 'RegisterFile']
+    dp = repo.mod(DPATH)
+    for i in sorted(regs, key=lambda x: x.path):
+        S = stage_of(i.path.split('.')[-1])
+        cons = f"{i.path}: stage register enabled by its stage"
+        if i.path in STAGE_REG_EXCEPTIONS:
+            r.ok(dp, 'ProcDpath.construct', cons, nontrivial=False, note='exception: ' + STAGE_REG_EXCEPTIONS[i.path])
+            continue
+        if S is None or S not in enable:
+            r.bad(dp, 'ProcDpath.construct', cons, f"register {i.path} cannot be attributed to a pipeline stage")
+            continue
+        if i.cls.name not in ('RegEn', 'RegEnRst'):
+            sib = [x.path for x in regs if stage_of(x.path.split('.')[-1]) == S and x.cls.name in ('RegEn', 'RegEnRst')]
+            r.bad(dp, 'ProcDpath.construct', cons,
+                  f"{i.path} is a {i.cls.name} without enable while its stage-{S} siblings ({', '.join(sib[:3])}) are held by "
+                  f"{enable[S]}: when stage {S} stalls it is overwritten with the value of the following instruction (e.g. a stalled "
+                  f"taken branch jumps to the next instruction's target)")
+            continue
+        drv = [m[len(info.path) + 1:] for m, sl in d.members((i.path + '.en', None))
+               if sl is None and m.startswith(info.path + '.') and m[len(info.path) + 1:] in defs]
+        if drv != [enable[S]]:
+            r.bad(dp, 'ProcDpath.construct', cons,
+                  f"{i.path}.en is driven by {drv or 'nothing in the control unit'}, the enable of stage {S} is {enable[S]}: the register "
+                  f"is updated / held out of step with the other registers of its stage")
+        else:
+            r.ok(dp, 'ProcDpath.construct', cons + f" ({enable[S]})")
+    r.observations.append(f"stage enables discovered from the valid-bit registers: {dict(sorted(enable.items()))}")
+    r.require_floor(30)
+    return r
+
+
 RULES = [rule_isa_doc, rule_encoding, rule_isa_set, rule_decode, rule_fl, rule_cl, rule_rtl, rule_arch, rule_cksum,
-         rule_hazard_symmetry, rule_gating]
+         rule_hazard_symmetry, rule_gating, rule_stage_regs]
 
 
 # ---------------------------------------------------------------------------
